@@ -28,6 +28,7 @@ import (
 	"bytes"
 	"fmt"
 	"io"
+	"io/ioutil"
 	"strings"
 	"testing"
 
@@ -307,17 +308,22 @@ type c23h struct {
 	hdr  Header
 	te   []string
 	// current case (for lazily built case ids) and local outcome counters
-	cur  struct {
+	cur struct {
 		part, desc string
 		fr         c23frag
 		e, pi      int
 		extra      int
+		bare       bool
+		seq        int
 	}
 	idFn func() string
 	oc   map[[3]string]int64
 }
 
 func (h *c23h) id() string {
+	if h.cur.part == "S" {
+		return vk.Key(h.cur.part, h.cur.desc, h.cur.fr, h.cur.pi, h.cur.bare, h.cur.seq)
+	}
 	if h.cur.part == "A-bare" {
 		return vk.Key(h.cur.part, h.cur.desc, h.cur.extra, h.cur.fr, h.cur.pi)
 	}
@@ -390,6 +396,8 @@ func (h *c23h) run(s []byte, fr c23frag, eofWith bool, pat []int, bare bool) (ou
 
 var c23errKinds = [][2]string{
 	{"invalid byte in chunk length", "err:invalid-byte-in-chunk-length"},
+	{"empty hex number", "err:empty-chunk-length"},
+	{"chunk length too large", "err:chunk-length-too-large"},
 	{"malformed chunked encoding", "err:malformed-chunked-encoding"},
 	{"suspiciously long trailer", "err:suspiciously-long-trailer"},
 	{"malformed MIME header", "err:malformed-MIME-header"},
@@ -474,6 +482,221 @@ func (h *c23h) judge(s []byte, ref *c23ref, out *c23out, mustAccept bool) {
 		h.outcome("ref-reject", "", "accept")
 	default:
 		h.outcome("ref-reject:", ref.clause, kind)
+	}
+}
+
+// ---------------------------------------------------------------------------------------
+// Operation sequences after the decoder terminated ("an error is final").
+// Phase 1 reads with a fixed read size until Read returns the first error (or io.EOF).
+// Phase 2 applies a sequence of operations to the SAME reader:
+//   R1/R3/RB  one Read of 1 / 3 / 4096 bytes      RA  read until an error (ioutil.ReadAll)
+//   CL        Body.Close()                          DR  the server's post-handler drain:
+//             io.CopyN(Discard, body, 256K+1) then Body.Close(), as bfe_server/chunk_writer.go
+// Demanded (all follow from "a deviation is an error rather than a differently framed body"
+// and "decoded to exactly the data"): after a non-EOF error no operation delivers a byte, no
+// Read returns nil or a clean io.EOF, and the first Close / drain reports failure (so the
+// rest of the wire is not taken as the next message); after io.EOF no operation delivers a
+// byte. Not judged: the identity of the later error, anything after Close has been called,
+// Close / drain results after a clean EOF (counted as outcomes).
+
+const (
+	c23opR1 = iota
+	c23opR3
+	c23opRB
+	c23opRA
+	c23opCL
+	c23opDR
+)
+
+var c23opNames = []string{"R1", "R3", "RB", "RA", "CL", "DR"}
+
+const c23maxPostHandlerReadBytes = 256 << 10 // bfe_server/chunk_writer.go
+
+func c23seqName(seq, depth, nops int) string {
+	out := ""
+	for i := 0; i < depth; i++ {
+		out = c23opNames[seq%nops] + out
+		seq /= nops
+	}
+	return out
+}
+
+// runSeq executes one (stream, fragmentation, phase-1 read size, op sequence) case.
+func (h *c23h) runSeq(s []byte, ref *c23ref, fr c23frag, rsz int, bare bool, seq, depth, nops int) {
+	h.src = c23src{s: s, fr: fr}
+	h.br.Reset(&h.src)
+	clause := ref.clause
+	if ref.ok {
+		clause = "ref-accept"
+	}
+	var first error
+	stalled := false
+	viol := func(kind, detail string) {
+		h.r.Violation("after-error:"+clause+":"+kind, h.id(), fmt.Sprintf("stream %s, reads of %d bytes until the first error (%v), then %s: %s", c23short(s), rsz, first, c23seqName(seq, depth, nops), detail))
+	}
+	panicked, val := vk.Guard(func() {
+		var rd io.Reader
+		var bd io.ReadCloser
+		if bare {
+			rd = newChunkedReader(h.br)
+		} else {
+			h.hdr["Transfer-Encoding"] = h.te
+			h.req = Request{Method: "POST", ProtoMajor: 1, ProtoMinor: 1, Header: h.hdr}
+			if err := readTransfer(&h.req, h.br); err != nil {
+				panic("harness: readTransfer: " + err.Error())
+			}
+			bd = h.req.Body
+			rd = bd
+		}
+		for zero := 0; ; {
+			n, err := rd.Read(h.buf[:rsz])
+			if err != nil {
+				first = err
+				break
+			}
+			if n > 0 {
+				zero = 0
+			} else if zero++; zero > 8 {
+				stalled = true
+				return
+			}
+		}
+		eof := first == io.EOF
+		closed, judgedClose := false, false
+		read := func(k int, op string) error {
+			n, err := rd.Read(h.buf[:k])
+			switch {
+			case closed:
+				h.outcome("S:after-close:", op, c23kindOf(err))
+			case eof:
+				if n > 0 {
+					h.r.Violation("after-eof:"+clause+":read-delivers-data", h.id(), fmt.Sprintf("stream %s read to a clean io.EOF, then %s: a later Read delivered %s", c23short(s), c23seqName(seq, depth, nops), c23short(h.buf[:n])))
+				}
+				h.outcome("S:after-eof:read:", "", c23kindOf(err))
+			default:
+				switch {
+				case n > 0:
+					viol("read-delivers-data", fmt.Sprintf("a later Read delivered %s (err %v): the body is re-framed", c23short(h.buf[:n]), err))
+				case err == nil:
+					viol("read-returns-nil", "a later Read returned 0, nil: the error is not final")
+				case err == io.EOF:
+					viol("read-clean-eof", "a later Read returned a clean io.EOF: the malformed body ends as if it were well-formed")
+				}
+				same := "same-error"
+				if err != first {
+					same = "different-error"
+				}
+				h.outcome("S:after-error:read:", same, c23kindOf(err))
+			}
+			return err
+		}
+		for i := depth - 1; i >= 0; i-- {
+			d := 1
+			for j := 0; j < i; j++ {
+				d *= nops
+			}
+			op := seq / d % nops
+			switch op {
+			case c23opR1:
+				read(1, "R1")
+			case c23opR3:
+				read(3, "R3")
+			case c23opRB:
+				read(4096, "RB")
+			case c23opRA:
+				for k, zero := 0, 0; k < 64; k++ {
+					if err := read(512, "RA"); err != nil {
+						break
+					}
+					if zero++; zero > 8 {
+						break
+					}
+				}
+			case c23opCL, c23opDR:
+				var fail bool
+				var n int64
+				what := "close-reports-success"
+				if op == c23opCL {
+					fail = bd.Close() != nil
+				} else {
+					what = "drain-allows-reuse"
+					var err error
+					n, err = io.CopyN(ioutil.Discard, bd, c23maxPostHandlerReadBytes+1)
+					switch {
+					case n >= c23maxPostHandlerReadBytes:
+						fail = true
+					case err != nil && err != io.EOF && err != ErrBodyReadAfterClose:
+						fail = true
+					case bd.Close() != nil:
+						fail = true
+					}
+				}
+				switch {
+				case closed || judgedClose:
+					h.outcome("S:later-close-or-drain:", c23opNames[op], map[bool]string{true: "fails", false: "succeeds"}[fail])
+				case eof:
+					if n > 0 {
+						h.r.Violation("after-eof:"+clause+":drain-delivers-data", h.id(), fmt.Sprintf("stream %s read to a clean io.EOF, then %s: the drain skipped %d more body bytes", c23short(s), c23seqName(seq, depth, nops), n))
+					}
+					h.outcome("S:after-eof:", c23opNames[op], map[bool]string{true: "fails", false: "succeeds"}[fail])
+				default:
+					if n > 0 {
+						viol("drain-delivers-data", fmt.Sprintf("the drain skipped %d more body bytes: the body is re-framed", n))
+					}
+					if !fail {
+						viol(what, "the first Close/drain after the error reports the body as cleanly consumed, so the connection would be reused")
+					}
+					h.outcome("S:after-error:", c23opNames[op], map[bool]string{true: "fails", false: "succeeds"}[fail])
+				}
+				judgedClose, closed = true, true
+			}
+		}
+	})
+	switch {
+	case panicked:
+		h.r.Outcome("S:panic@" + vk.PanicSite(val))
+	case stalled:
+		h.outcome("S:phase1-stall", "", "stall")
+	}
+}
+
+func c23kindOf(err error) string {
+	switch err {
+	case nil:
+		return "nil"
+	case io.EOF:
+		return "clean"
+	case ErrBodyReadAfterClose:
+		return "err:read-after-close"
+	}
+	o := c23out{err: err}
+	return c23errKind(&o)
+}
+
+// sequences runs every op sequence of the given depth on stream s (body level: 6 ops; bare
+// chunkedReader: the 4 read ops), for 2 fragmentations x 2 phase-1 read sizes.
+func (h *c23h) sequences(desc string, s []byte, ref *c23ref, depth int) {
+	h.cur.part, h.cur.desc = "S", desc
+	for _, fr := range []c23frag{{}, {k: 1}} {
+		for pi, rsz := range []int{1, 64} {
+			for _, bare := range []bool{false, true} {
+				nops := 6
+				if bare {
+					nops = 4
+				}
+				total := 1
+				for i := 0; i < depth; i++ {
+					total *= nops
+				}
+				for seq := 0; seq < total; seq++ {
+					h.cur.fr, h.cur.pi, h.cur.bare, h.cur.seq = fr, pi, bare, seq
+					if !h.r.CaseN(h.idFn) {
+						continue
+					}
+					h.runSeq(s, ref, fr, rsz, bare, seq, depth, nops)
+				}
+			}
+		}
 	}
 }
 
@@ -619,6 +842,8 @@ func TestVerifC23(t *testing.T) {
 	}
 	patsLight := [][]int{{1}, {3}, {64}}
 	next := []byte("NEXT")
+	seqDepth := 3
+	seqPre := r.Pick(3, 4) // Part B prefixes up to this length also get op sequences
 
 	// ---- Part A: round trip through the real encoder ---------------------------------
 	alphaA := []string{"a", "\r", "\n", "0"}
@@ -741,6 +966,9 @@ func TestVerifC23(t *testing.T) {
 			ref := c23RefDecode(s)
 			desc := vk.Key(vk.Q(pre), m)
 			h.explore("B", desc, s, &ref, false, []c23frag{{}, {k: 1}}, [][]int{{1}, {64}})
+			if len(parts) <= seqPre {
+				h.sequences(vk.Key("B", desc), s, &ref, seqDepth)
+			}
 			r.Nontrivial("B|" + desc)
 			if len(pre) == 2 && m == 1 && (parts[0] == 1 || parts[0] == 5) {
 				r.Sample(map[string]interface{}{"part": "B", "stream": vk.Q(s), "ref_ok": ref.ok, "ref_reject": ref.clause + ":" + ref.class})
@@ -790,6 +1018,7 @@ func TestVerifC23(t *testing.T) {
 		ref := c23RefDecode(c.s)
 		frs := []c23frag{{}, {k: 1}, {k: 2}, {k: 3}, {k: 16}, {k: 17}}
 		h.explore("C", c.desc, c.s, &ref, false, frs, patsLight)
+		h.sequences(vk.Key("C", c.desc), c.s, &ref, seqDepth)
 		r.Nontrivial("C|" + c.desc)
 	}
 
@@ -804,7 +1033,7 @@ func TestVerifC23(t *testing.T) {
 	subB := []byte{'X', '\r', '\n', '0', ' '}
 	type op struct {
 		kind, pos int
-		b    byte
+		b         byte
 	}
 	opsFor := func(L int) []op {
 		var ops []op
@@ -841,6 +1070,12 @@ func TestVerifC23(t *testing.T) {
 		return t, true
 	}
 	for bi, bs := range bases {
+		idx++
+		if mine(idx) {
+			s0 := append([]byte(bs), next...)
+			ref0 := c23RefDecode(s0)
+			h.sequences(vk.Key("D0", bi), s0, &ref0, seqDepth)
+		}
 		ops := opsFor(len(bs))
 		for i1, o1 := range ops {
 			idx++
@@ -857,6 +1092,7 @@ func TestVerifC23(t *testing.T) {
 			ref := c23RefDecode(s1)
 			desc := vk.Key(bi, i1)
 			h.explore("D1", desc, s1, &ref, false, c23frags(len(s1), 1, 0), patsLight)
+			h.sequences(vk.Key("D1", desc), s1, &ref, seqDepth)
 			r.Nontrivial("D|" + string(s1))
 			if bi == 0 && i1%97 == 5 {
 				r.Sample(map[string]interface{}{"part": "D", "stream": vk.Q(s1), "ref_ok": ref.ok, "ref_reject": ref.clause + ":" + ref.class})
@@ -899,11 +1135,14 @@ func TestVerifC23(t *testing.T) {
 				ref := c23RefDecode(s)
 				desc := vk.Key(hi, vk.Q(tl), vk.Q(post))
 				h.explore("T", desc, s, &ref, false, []c23frag{{}, {k: 1}, {c1: len(head)}, {c1: len(head) + 1}}, [][]int{{1}, {64}})
+				if len(parts) <= 3 {
+					h.sequences(vk.Key("T", desc), s, &ref, seqDepth)
+				}
 				r.Nontrivial("T|" + string(s))
 			}
 		})
 	}
 
-	r.Set("bounds", fmt.Sprintf("A: bodies over {a,CR,LF,0} len<=%d x all chunkings x (all fragmentations for streams<=%d bytes, else all 1-cut%s + 1/2/3-byte) x EOF-with-data{no,yes} x %d read patterns; +10 large bodies (15..8200) x 6 chunkings; bare writer/reader with a zero-length Write at every position. B: all prefixes over %d symbols len<=%d x data lengths. C: hex runs 15..33, lines 4094..5000, all 256 byte values ins/sub in a size line. D: all single%s deviations (truncate/delete/insert/substitute) of %d valid bodies. T: all tails over 6 atoms len<=%d",
-		maxBody, maxAll, map[bool]string{false: "", true: "/2-cut (len<=4)"}[r.Thorough()], len(patsFull), len(alphaB), maxPre, map[bool]string{false: "", true: " and double"}[r.Thorough()], len(bases), maxTail))
+	r.Set("bounds", fmt.Sprintf("A: bodies over {a,CR,LF,0} len<=%d x all chunkings x (all fragmentations for streams<=%d bytes, else all 1-cut%s + 1/2/3-byte) x EOF-with-data{no,yes} x %d read patterns; +10 large bodies (15..8200) x 6 chunkings; bare writer/reader with a zero-length Write at every position. B: all prefixes over %d symbols len<=%d x data lengths. C: hex runs 15..33, lines 4094..5000, all 256 byte values ins/sub in a size line. D: all single%s deviations (truncate/delete/insert/substitute) of %d valid bodies. T: all tails over 6 atoms len<=%d. S (after the first error / EOF): every sequence of %d operations over {Read 1, Read 3, Read 4096, ReadAll, Close, server drain} on the body (4 read ops on the bare chunkedReader) x {whole, 1-byte} fragments x phase-1 read size {1,64}, for every stream of B with prefix len<=%d, all of C and D (single deviations and the valid bases), T tails len<=3",
+		maxBody, maxAll, map[bool]string{false: "", true: "/2-cut (len<=4)"}[r.Thorough()], len(patsFull), len(alphaB), maxPre, map[bool]string{false: "", true: " and double"}[r.Thorough()], len(bases), maxTail, seqDepth, seqPre))
 }
